@@ -1222,11 +1222,35 @@ def c11(tier):
         g = [reset(opts, slot=0), reset(opts, slot=1)] + [run1(l, slot=0) for l in lines] + [runn(lines, slot=1, tag={'pair': 'seg'})]
         groups.append(g)
     conform(rep, 'C11', groups, maxlen=4000)
+    # the outermost interface, without the harness: the real binary with --update=-1 prints one refresh per applied frame; TLC parses
+    # every refresh through its own header and judges each frame's effect on the PRINTED values with the same predicates
+    cb = vlib.build_cli('release')
+    evs = []
+    for k in range(8 if tier == 'quick' else 80):
+        opts = OPTSETS[k % 4] + ([['-i', 'aAews'], ['-i', 'e'], ['-i', ''], []][(k // 4) % 4])
+        acs = [0x4a9000 + rng.getrandbits(10) for _ in range(2 + k % 3)]
+        pool = []
+        for a in acs:
+            pool += other_format_frames(a, rng) + valid_value_frames(a, rng)
+        pool += nine_frames(0, rng)[:3] + ['zz', '', '8D4840D6']
+        lines = [list(rng.choice(pool).encode()) for _ in range(rng.randrange(20, 70))]
+        e = cli_event(cb, 'release', opts, lines, len(evs) + 1, keep_snaps=True)
+        e['e'] = 'clistream'
+        e['args']['U'] = '-U' in opts
+        e['args']['R'] = '-R' in opts
+        e.pop('last', None)
+        evs.append(e)
+    trc = os.path.join(vlib.workdir(), 'c11cli.trace.ndjson')
+    vlib.write_ndjson(trc, evs)
+    rep.add_validation(vlib.validate([trc], 'C11'))
+    rep.extra['cli_streams'] = len(evs)
     rep.rule = ('(i) every transition of the bounded history model (TLC, depth %d, 24-frame alphabet, 2 aircraft, ticks 9 s / 11 s, -R on/off) '
                 'replayed through the real reader under {none,-U} x {-R}, as a prefix-tree walk with save/restore: one reader run per model '
                 'transition, all parameters of the row judged after every step; (ii) %d random histories of 120 steps for 1..4 aircraft with '
-                'ticks and re-fed frames. Non-trivial = applied frame of a constrained format on an existing row; distinct by (line, slot) '
-                '(conservative: the same line in different histories counts once)' % (3 if tier == 'quick' else 4, nh))
+                'ticks and re-fed frames; (iii) %d streams through the real CLI binary (--update=-1): every printed refresh parsed through its own '
+                'header, each frame judged on the printed altitude / squawk / callsign / speed / track / rate, other rows textually unchanged. '
+                'Non-trivial = applied frame of a constrained format on an existing row; distinct by (line, slot) '
+                '(conservative: the same line in different histories counts once)' % (3 if tier == 'quick' else 4, nh, len(evs)))
     vlib.nt_floor(rep, 20)
     return rep
 
@@ -2234,6 +2258,19 @@ def c17(tier):
             g = [reset([['-U'], [], ['-R']][(k // 60) % 3])]
             groups.append(g)
         g.append(run1(fr))
+    # the country is a function of the address alone, whatever the row has been through: later frames on both update paths, a row
+    # that went stale and is heard again before the sweep, a row swept and created again
+    nh = 0
+    for k, base in enumerate(range(0, 1 << 24, 65536 if tier == 'quick' else 8192)):
+        a = base + rng.randrange(1, 4096)
+        b = 0x4d7000 + (k % 4000)
+        fr = nine_frames(a, rng)
+        opts = [['-U'], [], ['-R']][k % 3]
+        g = [reset(['-d', '1'] + opts), run1(fr[k % 9]), run1(fr[(k + 3) % 9]), tick(2500), run1(fr[(k + 5) % 9]), run1(fr[5]),
+             tick(2500), runn([rng.choice(nine_frames(b, rng)) for _ in range(13)]), run1(fr[(k + 1) % 9]), run1(fr[3])]
+        groups.append(g)
+        nh += 1
+    rep.extra['row_histories'] = nh
     conform(rep, 'C17', groups, maxlen=3000)
     rep.evaluations += 2 * (1 << 24)
     rep.nontrivial |= set((r['lo'], r['hi'], r['reg']) for r in ev['runs'])
@@ -2244,7 +2281,8 @@ def c17(tier):
                 'decoded DF18 frame) is judged by TLC against the Annex 10 block table of spec/Country.tla: runs partition the address space, '
                 'a run starting inside a block stays inside it and shows its code, a run starting outside every block touches no block and '
                 'shows "??"; plus first-contact frames of all nine formats through the real reader for one address per 1024-address block '
-                '(quick: per 4096), the created row judged event by event. distinct_nontrivial = runs + created rows' % len(ev['runs']))
+                '(quick: per 4096), the created row judged event by event; and %d row histories (update on both paths, stale and heard again before the '
+                'sweep, swept and re-created) in which every frame of the address is judged. distinct_nontrivial = runs + judged rows' % (len(ev['runs']), nh))
     rep.assumptions.append('the allocation table is written from memory of Annex 10 (no copy offline); blocks marked uncertain constrain nothing')
     return rep
 
